@@ -644,7 +644,8 @@ def run(ck):
                     sa.expect(r1[0] == "ok" and r2[0] == "ok" and got == ("ok", v), (sub_w, n, alts, rev, ("then", big, v), raw),
                               "alt-width group register does not read the last value written (full-width value, then a shorter one)", got, v, finding=finding)
 
-    # negative values must be refused everywhere (a register that accepted one loops forever in export())
+    # negative values must be refused everywhere (fixed by aacb22c: a register that accepted one looped forever in export());
+    # the model works over naturals, so "refused" is the only behaviour it can be compared with
     sn = ck.stream("negative_values", "negative integers written to registers, bit-fields and through load_yml_config must be refused; non-trivial = distinct (target, value)")
     for w in (8, 32, 64):
         for v in (-1, -(1 << w), -(1 << (w - 1)), -rng.getrandbits(w) - 1):
@@ -666,8 +667,7 @@ def run(ck):
                     res = pyres(quiet, regs.load_yml_config, {"REG0": {"F0_0": v}})
                 sn.note((w, v, target), cls=target)
                 sn.expect(res[0] == "E:spsdk" and dump_real_cfg(regs, layout) == st0, (w, v, target),
-                          "a negative value is not refused (or the refused write changed the register)", (res, dump_real_cfg(regs, layout)), "E:spsdk",
-                          finding=None if target in ("bitfield", "config-bitfield") else "C11-register-negative-value-accepted")
+                          "a negative value is not refused (or the refused write changed the register)", (res, dump_real_cfg(regs, layout)), "E:spsdk")
 
     run_config_model(ck, drv)
 
